@@ -418,7 +418,7 @@ Proof.
     simp_st. crw. cbn [estate_valid].
     do 3 eexists. split; [reflexivity|]. split.
     + constructor; norm; try (old H).
-      Time all: try (timeout 30 (leaf H e x Hnk idtac)).
+      all: try ((leaf H e x Hnk idtac)).
       exists (em ++ [x]), fu'. split; [rewrite Hu, Hfu, <- app_assoc; reflexivity|].
       split; [rewrite app_length; subst fu; cbn [length] in *; lia|].
       assert (Hcx : cnt em x = 0 /\ cnt fu' x = 0 /\ cnt em e = 0 /\ cnt fu' e = 0).
@@ -427,7 +427,7 @@ Proof.
       split; intros y0 Hy0; cs2 y0 e x; crw; try lia; try reflexivity.
       * apply Hf. subst fu. rewrite cnt_cons_neq by congruence. exact Hy0.
       * apply Hem. lia.
-      + Time t_step H e x t.
+      + t_step H e x t.
         - (* nothing free: an unreferenced probe entry is evicted *)
     in_range H s v.
     assert (Hdv : data s v <> None) by (apply (C_data_cached _ H); unfold cC; lia).
@@ -437,14 +437,14 @@ Proof.
     simp_st. crw. cbn [estate_valid].
     do 3 eexists. split; [reflexivity|]. split.
     + constructor; norm; try (old H).
-      Time all: try (timeout 30 (leaf H e v Hnk idtac)).
+      all: try ((leaf H e v Hnk idtac)).
       exists em, (@nil nat). split; [rewrite Hu, Hfu; reflexivity|].
       split; [rewrite app_length; subst fu; cbn [length] in *; lia|].
       assert (Hcx : cnt em v = 0 /\ cnt em e = 0).
       { rewrite Hu, Hfu, !cnt_app, !cnt_nil in *. lia. }
       split; intros y0 Hy0; [rewrite cnt_nil in Hy0; lia|].
       cs2 y0 e v; crw; try lia; try reflexivity. apply Hem. lia.
-    + Time t_step H e v t.
+    + t_step H e v t.
   - (* nothing free: an unreferenced prec entry is evicted *)
     in_range H s v.
     assert (Hdv : data s v <> None) by (apply (C_data_cached _ H); unfold cC; lia).
@@ -454,14 +454,14 @@ Proof.
     simp_st. crw. cbn [estate_valid].
     do 3 eexists. split; [reflexivity|]. split.
     + constructor; norm; try (old H).
-      Time all: try (timeout 30 (leaf H e v Hnk idtac)).
+      all: try ((leaf H e v Hnk idtac)).
       exists em, (@nil nat). split; [rewrite Hu, Hfu; reflexivity|].
       split; [rewrite app_length; subst fu; cbn [length] in *; lia|].
       assert (Hcx : cnt em v = 0 /\ cnt em e = 0).
       { rewrite Hu, Hfu, !cnt_app, !cnt_nil in *. lia. }
       split; intros y0 Hy0; [rewrite cnt_nil in Hy0; lia|].
       cs2 y0 e v; crw; try lia; try reflexivity. apply Hem. lia.
-    + Time t_step H e v t.
+    + t_step H e v t.
 Qed.
 
 Lemma ghost_hit_probe s k zp nzp zq nzq e :
@@ -509,7 +509,7 @@ Proof.
     simp_st. crw. cbn [estate_valid].
     do 3 eexists. split; [reflexivity|]. split.
     + constructor; norm; try (old H).
-      Time all: try (timeout 30 (leaf H e x Hnk idtac)).
+      all: try ((leaf H e x Hnk idtac)).
       exists (em ++ [x]), fu'. split; [rewrite Hu, Hfu, <- app_assoc; reflexivity|].
       split; [rewrite app_length; subst fu; cbn [length] in *; lia|].
       assert (Hcx : cnt em x = 0 /\ cnt fu' x = 0 /\ cnt em e = 0 /\ cnt fu' e = 0).
@@ -518,7 +518,7 @@ Proof.
       split; intros y0 Hy0; cs2 y0 e x; crw; try lia; try reflexivity.
       * apply Hf. subst fu. rewrite cnt_cons_neq by congruence. exact Hy0.
       * apply Hem. lia.
-      + Time t_step H e x t.
+      + t_step H e x t.
         - (* nothing free: an unreferenced probe entry is evicted *)
     in_range H s v.
     assert (Hdv : data s v <> None) by (apply (C_data_cached _ H); unfold cC; lia).
@@ -528,14 +528,14 @@ Proof.
     simp_st. crw. cbn [estate_valid].
     do 3 eexists. split; [reflexivity|]. split.
     + constructor; norm; try (old H).
-      Time all: try (timeout 30 (leaf H e v Hnk idtac)).
+      all: try ((leaf H e v Hnk idtac)).
       exists em, (@nil nat). split; [rewrite Hu, Hfu; reflexivity|].
       split; [rewrite app_length; subst fu; cbn [length] in *; lia|].
       assert (Hcx : cnt em v = 0 /\ cnt em e = 0).
       { rewrite Hu, Hfu, !cnt_app, !cnt_nil in *. lia. }
       split; intros y0 Hy0; [rewrite cnt_nil in Hy0; lia|].
       cs2 y0 e v; crw; try lia; try reflexivity. apply Hem. lia.
-    + Time t_step H e v t.
+    + t_step H e v t.
   - (* nothing free: an unreferenced prec entry is evicted *)
     in_range H s v.
     assert (Hdv : data s v <> None) by (apply (C_data_cached _ H); unfold cC; lia).
@@ -545,14 +545,14 @@ Proof.
     simp_st. crw. cbn [estate_valid].
     do 3 eexists. split; [reflexivity|]. split.
     + constructor; norm; try (old H).
-      Time all: try (timeout 30 (leaf H e v Hnk idtac)).
+      all: try ((leaf H e v Hnk idtac)).
       exists em, (@nil nat). split; [rewrite Hu, Hfu; reflexivity|].
       split; [rewrite app_length; subst fu; cbn [length] in *; lia|].
       assert (Hcx : cnt em v = 0 /\ cnt em e = 0).
       { rewrite Hu, Hfu, !cnt_app, !cnt_nil in *. lia. }
       split; intros y0 Hy0; [rewrite cnt_nil in Hy0; lia|].
       cs2 y0 e v; crw; try lia; try reflexivity. apply Hem. lia.
-    + Time t_step H e v t.
+    + t_step H e v t.
 Qed.
 
 (** a real miss: an unused entry, else the oldest ghost, is recycled *)
@@ -600,7 +600,7 @@ Proof.
         simp_st. crw. rewrite ?Hdt. crw. cbn [estate_valid].
         do 3 eexists. split; [reflexivity|]. split.
         -- constructor; norm; try (old H).
-           all: try (timeout 60 (leaf H e v Hnk idtac)).
+           all: try ((leaf H e v Hnk idtac)).
            exists (rm e (unused s)), (@nil nat). split; [rewrite app_nil_r; reflexivity|].
            split; [rewrite app_length; subst fu; cbn [length] in *; lia|].
            split; intros y0 Hy0; [rewrite cnt_nil in Hy0; lia|].
@@ -615,7 +615,7 @@ Proof.
         simp_st. crw. rewrite ?Hdt. crw. cbn [estate_valid].
         do 3 eexists. split; [reflexivity|]. split.
         -- constructor; norm; try (old H).
-           all: try (timeout 60 (leaf H e v Hnk idtac)).
+           all: try ((leaf H e v Hnk idtac)).
            exists (rm e (unused s)), (@nil nat). split; [rewrite app_nil_r; reflexivity|].
            split; [rewrite app_length; subst fu; cbn [length] in *; lia|].
            split; intros y0 Hy0; [rewrite cnt_nil in Hy0; lia|].
@@ -629,7 +629,7 @@ Proof.
       simp_st. rewrite Hdt. simp_st. crw. rewrite ?Hdt. crw. cbn [estate_valid].
       do 3 eexists. split; [reflexivity|]. split.
       * constructor; norm; try (old H).
-        all: try (timeout 60 (leaf H e e Hnk idtac)).
+        all: try ((leaf H e e Hnk idtac)).
         exists em, fu0. split; [exact Hr'|].
         split; [rewrite app_length; subst fu; rewrite app_length in Hl; cbn [length] in *; lia|].
         assert (Hc0 : cnt em e = 0 /\ cnt fu0 e = 0)
@@ -665,7 +665,7 @@ Proof.
         simp_st. crw. rewrite ?Hdt. crw. cbn [estate_valid].
         do 3 eexists. split; [reflexivity|]. split.
         -- constructor; norm; try (old H).
-           all: try (timeout 60 (leaf H e v Hnk idtac)).
+           all: try ((leaf H e v Hnk idtac)).
            exists (@nil nat), (@nil nat). split; [exact Hun|].
            split; [rewrite app_length; subst fu; cbn [length] in *; lia|].
            split; intros y0 Hy0; rewrite cnt_nil in Hy0; lia.
@@ -678,7 +678,7 @@ Proof.
         simp_st. crw. rewrite ?Hdt. crw. cbn [estate_valid].
         do 3 eexists. split; [reflexivity|]. split.
         -- constructor; norm; try (old H).
-           all: try (timeout 60 (leaf H e v Hnk idtac)).
+           all: try ((leaf H e v Hnk idtac)).
            exists (@nil nat), (@nil nat). split; [exact Hun|].
            split; [rewrite app_length; subst fu; cbn [length] in *; lia|].
            split; intros y0 Hy0; rewrite cnt_nil in Hy0; lia.
@@ -707,7 +707,7 @@ Proof.
           simp_st. crw. rewrite ?Hdt. crw. cbn [estate_valid].
           do 3 eexists. split; [reflexivity|]. split.
           ++ constructor; norm; try (old H).
-             all: try (timeout 60 (leaf H e v Hnk idtac)).
+             all: try ((leaf H e v Hnk idtac)).
              exists (@nil nat), (@nil nat). split; [exact Hun|].
              split; [rewrite app_length; subst fu; cbn [length] in *; lia|].
              split; intros y0 Hy0; rewrite cnt_nil in Hy0; lia.
@@ -720,7 +720,7 @@ Proof.
           simp_st. crw. rewrite ?Hdt. crw. cbn [estate_valid].
           do 3 eexists. split; [reflexivity|]. split.
           ++ constructor; norm; try (old H).
-             all: try (timeout 60 (leaf H e v Hnk idtac)).
+             all: try ((leaf H e v Hnk idtac)).
              exists (@nil nat), (@nil nat). split; [exact Hun|].
              split; [rewrite app_length; subst fu; cbn [length] in *; lia|].
              split; intros y0 Hy0; rewrite cnt_nil in Hy0; lia.
